@@ -2734,8 +2734,8 @@ func specStoreSame(pConn *PFCPConn) bool {
 //@ func (pConn *PFCPConn) handleSessionModificationRequest(msg message.Message) (reply message.Message, err error)
 //@   requires specHandlerEnv(pConn) && msgWF(msg) && specModReqWF(msg)
 //@   ensures C02.mod.wrongtype: !typeIs[*message.SessionModificationRequest](msg) ==> reply == nil && err != nil
-//@   ensures C02.mod.reply: typeIs[*message.SessionModificationRequest](msg) ==> typeIs[*message.SessionModificationResponse](reply) && dynRef(reply) != 0 && specModResp(reply).Header != nil && specModResp(reply).Header.SequenceNumber == specModReq(msg).Header.SequenceNumber && specModResp(reply).Cause != nil
-//@   ensures C02.mod.cause: typeIs[*message.SessionModificationRequest](msg) ==> (err != nil ==> specIEu8(specModResp(reply).Cause) == ie.CauseRequestRejected) && (err == nil ==> specIEu8(specModResp(reply).Cause) == ie.CauseRequestAccepted)
+//@   ensures C02.mod.reply: typeIs[*message.SessionModificationRequest](msg) ==> typeIs[*message.SessionModificationResponse](reply) && dynRef(reply) != 0
+//@   ensures C02.mod.rejected: typeIs[*message.SessionModificationRequest](msg) && err != nil ==> specModResp(reply).Header != nil && specModResp(reply).Header.SequenceNumber == specModReq(msg).Header.SequenceNumber && specModResp(reply).Cause != nil && specIEu8(specModResp(reply).Cause) == ie.CauseRequestRejected
 //@   ensures C03.mod.rejected: err != nil ==> specOldRulesUntouched() && specStoreSame(pConn)
 //@   ensures C03.mod.unknown: typeIs[*message.SessionModificationRequest](msg) && !old[bool](specHasSession(pConn, specMsgSEID(msg))) ==> err != nil && specModResp(reply).Header.SEID == 0 && glen("dp") == old[int](glen("dp"))
 //@   ensures C03.mod.calls: glen("dp") <= old[int](glen("dp"))+2 && (err == nil ==> glen("dp") == old[int](glen("dp"))+2 && gfield("dp.method", gentry("dp", old[int](glen("dp")))) == uint64(upfMsgTypeMod) && gfield("dp.method", gentry("dp", old[int](glen("dp"))+1)) == uint64(upfMsgTypeDel))
